@@ -970,6 +970,7 @@ type vfSnap struct {
 	Ticks    uint64
 	Peers    map[string]string          // router peers -> protocol
 	Queues   map[string]bool            // p.peers
+	QueueLen map[string]int             // RPCs waiting in each outbound queue
 	Topics   map[string]map[string]bool // p.topics
 	Mesh     map[string]map[string]bool
 	Fanout   map[string]map[string]bool
@@ -1003,7 +1004,7 @@ func vfSet(m map[peer.ID]struct{}) map[string]bool {
 }
 
 func (g *vfGW) snap() *vfSnap {
-	s := &vfSnap{Peers: map[string]string{}, Queues: map[string]bool{}, Topics: map[string]map[string]bool{}, Mesh: map[string]map[string]bool{},
+	s := &vfSnap{Peers: map[string]string{}, Queues: map[string]bool{}, QueueLen: map[string]int{}, Topics: map[string]map[string]bool{}, Mesh: map[string]map[string]bool{},
 		Fanout: map[string]map[string]bool{}, LastPub: map[string]time.Duration{}, Backoff: map[string]map[string]time.Duration{},
 		Direct: map[string]bool{}, Outbound: map[string]bool{}, Score: map[string]float64{}, Penalty: map[string]float64{}, Invalid: map[string]float64{},
 		MySubs: map[string]int{}, MyRelays: map[string]int{}, Unwanted: map[string]map[string]int{}, Control: map[string]string{}, Gossip: map[string]int{},
@@ -1012,8 +1013,11 @@ func (g *vfGW) snap() *vfSnap {
 		p := g.n.ps
 		now := time.Now()
 		s.Now = now.Sub(g.t0)
-		for pid := range p.peers {
+		for pid, q := range p.peers {
 			s.Queues[vfName(pid)] = true
+			q.queueMu.Lock()
+			s.QueueLen[vfName(pid)] = q.queue.Len()
+			q.queueMu.Unlock()
 		}
 		for t, m := range p.topics {
 			s.Topics[t] = map[string]bool{}
